@@ -435,6 +435,19 @@ def incomplete_gamma_normal_form(expr):
     share x and differ from it by an integer, with the recurrence  Gamma(s + 1, x) = s Gamma(s, x) + x^s e^(-x)
     (integration by parts; a textbook identity, listed with assumption A4)"""
     expr = sp.sympify(expr)
+    # exponential integrals are incomplete gamma functions: E_n(x) = x^(n-1) Gamma(1 - n, x)
+    # (sympy keeps Gamma(s, x) for integer s <= 0 as E_{1-s}(x) / x^{-s}: integer orders are reduced to E_1 with
+    #  n E_{n+1}(x) = e^(-x) - x E_n(x) instead)
+    def _expint(n_, x_):
+        if n_.is_integer and n_.is_number and n_ >= 1:
+            val = sp.expint(1, x_)
+            for j in range(1, int(n_)):
+                val = (sp.exp(-x_) - x_ * val) / j
+            return val
+        return x_ ** (n_ - 1) * sp.uppergamma(1 - n_, x_)
+    # Ei(-x) = -E_1(x) for x > 0 (sympy writes Gamma(0, x) as -Ei(-x))
+    expr = expr.replace(sp.Ei, lambda a_: -sp.expint(1, -a_) if (-a_).is_positive else sp.Ei(a_))
+    expr = expr.replace(sp.expint, _expint)
     ugs = list(expr.atoms(sp.uppergamma))
     groups = {}
     for u in ugs:
@@ -461,7 +474,7 @@ def incomplete_gamma_normal_form(expr):
 
 class CGMYAnalytic(Lemma):
     """CGMY closed forms in analytic mode (real integrate / integrate_against_x / integrate_against_xx / density bodies run over
-    symbolic expressions; incomplete-gamma calculus by sympy), activity regimes 0<y<1 and 1<y<2:
+    symbolic expressions; incomplete-gamma calculus by sympy), activity regimes y<0, y=0, 0<y<1, y=1 and 1<y<2:
       finite intervals on one side of zero: d/db I(a, b) = b^n nu(b), d/da I(a, b) = -a^n nu(a), I(a, a) = 0  (n = 0, 1);
       infinite end: I(a, oo) - I(b, oo) = I(a, b), and I(a, oo) equals the incomplete-gamma integral of x^n nu over (a, oo)
       (Gamma rule int_a^oo z^s e^(-bz) dz = Gamma(s+1, ba) b^(-s-1) applied to the code's own density, the closed forms brought
@@ -470,7 +483,8 @@ class CGMYAnalytic(Lemma):
       also for the untempered fall-backs g = 0 and m = 0."""
     prop = "C09"
     cases = tuple((reg, kind) for reg in ("0<y<1", "1<y<2") for kind in ("P:n=0", "P:n=1", "N:n=0", "N:n=1", "S:n=2", "S:n=2,g=0", "S:n=2,m=0")) \
-        + tuple(("y<0", kind) for kind in ("P:n=0", "N:n=0", "Z:n=0"))
+        + tuple(("y<0", kind) for kind in ("P:n=0", "N:n=0", "Z:n=0")) \
+        + tuple((reg, kind) for reg in ("y=0", "y=1") for kind in ("P:n=0", "P:n=1", "N:n=0", "N:n=1", "S:n=2"))
 
     def __init__(self):
         self.name = "property:cgmy-closed-forms"
@@ -484,18 +498,24 @@ class CGMYAnalytic(Lemma):
         A, B = S("A", positive=True), S("B", positive=True)       # magnitudes of the end points
         if reg == "y<0":
             return self.prove_finite_activity(vc, nm, kind, c, g, m, A, B)
-        lo, hi = (0.0, 1.0) if reg == "0<y<1" else (1.0, 2.0)
-        y = S("y", positive=True)
-        facts = [f for f in (y > lo, y < hi, A < B) if f is not sp.true]
-        install_oracle(vc, dict(facts=facts, sample={c: 0.8, g: 6.0, m: 7.0, y: (lo + hi) / 2, A: 0.2, B: 0.5}), nm)
+        if reg in ("y=0", "y=1"):
+            # the special activity indices (exponential-integral branches of the closed forms): y is the literal value
+            lo = hi = float(reg[-1])
+            y = sp.Integer(int(reg[-1]))
+            install_oracle(vc, dict(facts=[A < B], sample={c: 0.8, g: 6.0, m: 7.0, A: 0.2, B: 0.5}), nm)
+        else:
+            lo, hi = (0.0, 1.0) if reg == "0<y<1" else (1.0, 2.0)
+            y = S("y", positive=True)
+            facts = [f for f in (y > lo, y < hi, A < B) if f is not sp.true]
+            install_oracle(vc, dict(facts=facts, sample={c: 0.8, g: 6.0, m: 7.0, y: (lo + hi) / 2, A: 0.2, B: 0.5}), nm)
         gv = SpVal(0) if "g=0" in kind else SpVal(g)
         mv = SpVal(0) if "m=0" in kind else SpVal(m)
         par = vc.obj("rpylib.model.levymodel.purejump.cgmy:CGMYParameters", c=SpVal(c), g=gv, m=mv, y=SpVal(y))
         nu = vc.obj("rpylib.model.levymodel.purejump.cgmy:_CGMYLevyMeasure", parameters=par)
         it = vc.interp
         dens = lambda x: to_sp(it.call(nu, [SpVal(x)], {}))
-        samp = lambda rng: {c: rng.uniform(0.2, 2), g: rng.uniform(1, 10), m: rng.uniform(1, 10), y: rng.uniform(lo + 0.05, hi - 0.05),
-                            A: rng.uniform(0.05, 0.4), B: rng.uniform(0.45, 1.5)}
+        samp = lambda rng: {c: rng.uniform(0.2, 2), g: rng.uniform(1, 10), m: rng.uniform(1, 10), A: rng.uniform(0.05, 0.4), B: rng.uniform(0.45, 1.5),
+                            **({y: rng.uniform(lo + 0.05, hi - 0.05)} if isinstance(y, sp.Symbol) else {})}
         n = int(kind.split("n=")[1][0])
         meth = {0: "integrate", 1: "integrate_against_x", 2: "integrate_against_xx"}[n]
         if kind[0] in "PN":
@@ -593,11 +613,13 @@ class CGMYAnalytic(Lemma):
         reg, kind = case
         if reg == "y<0":
             return self.replay_finite_activity(clause, kind)
-        yv = 0.5 if reg == "0<y<1" else 1.5
+        yv = {"0<y<1": 0.5, "1<y<2": 1.5, "y=0": 0.0, "y=1": 1.0}[reg]
         nu = _CGMYLevyMeasure(CGMYParameters(c=0.8, g=0.0 if "g=0" in kind else 6.0, m=0.0 if "m=0" in kind else 7.0, y=yv))
         n = int(kind.split("n=")[1][0])
         meth = {0: "integrate", 1: "integrate_against_x", 2: "integrate_against_xx"}[n]
         a, b = {"P": (0.2, 0.5), "N": (-0.5, -0.2), "S": (-0.5, 0.2)}[kind[0]]
+        if "infinite-end" in clause:
+            a, b = (0.2, np.inf) if kind[0] == "P" else (-np.inf, -0.2)
         got = float(getattr(nu, meth)(a, b))
         f = lambda x: x ** n * nu(x)
         want = quad(f, a, b, points=[0.0] if a < 0 < b else None, limit=400)[0] if not (a < 0 < b) else quad(f, a, -1e-12, limit=400)[0] + quad(f, 1e-12, b, limit=400)[0]
